@@ -57,7 +57,7 @@ def log1m_exp(val: float) -> float:
     """Numerically stable implementation of `log(1 - exp(val))`."""
     if val >= 0.0:
         return nan
-    if val > LOG_2:
+    if val > -LOG_2:
         return log(-expm1(val))
     return log1p(-exp(val))
 
